@@ -1,5 +1,6 @@
 """C14 - array arithmetic follows strict linear-algebra shape rules and values."""
 import itertools
+import math
 import operator
 from fractions import Fraction
 from numbers import Number
@@ -8,6 +9,7 @@ import numpy as np
 from hypothesis import strategies as st
 
 from vlib.core import Part, Violation, Discard, call
+from vlib import forms
 
 from mitxgraders import MatrixGrader, ListGrader, DependentSampler, RandomFunction
 from mitxgraders.helpers.calc import evaluator, MathArray
@@ -322,10 +324,15 @@ def fmt_real(x):
     return str(x) if isinstance(x, int) else repr(x)
 
 
+CONST_NAMES = {math.e: 'e', math.pi: 'pi'}
+
+
 def fmt_entry(e, standalone, bare=False):
     if isinstance(e, list):
         re_, im = e
         return '(%s%s%s*i)' % (fmt_real(re_), '-' if _negative(im) else '+', fmt_real(abs(im)))
+    if isinstance(e, float) and e in CONST_NAMES:
+        return CONST_NAMES[e]
     if standalone and _negative(e) and not bare:
         return '(%s)' % fmt_real(e)
     return fmt_real(e)
@@ -347,7 +354,7 @@ def fmt_literal(opd, bare=False):
 def run_op(spec):
     op, route = spec['op'], spec['route']
     if route == 'formula':
-        variables = {'i': 1j}
+        variables = {'i': 1j, 'e': math.e, 'pi': math.pi}
         parts = []
         for name, opd, lit in (('A', spec['a'], spec['lit'][0]), ('B', spec['b'], spec['lit'][1])):
             if lit:
@@ -561,7 +568,9 @@ def items_lattice(tier):
 
 
 SCALAR_ZEROS = [0, 0.0, -0.0, [0, 0], [0.0, 0.0]]
-SCALAR_NORMAL = [1, -2, 2.5, -0.75, [1, 1], [0, -2], [1.5, -0.5]]
+# ... and bases for which an implementation may have a special route: the constants e and pi (written by NAME in the
+# formula route), 2 and 10
+SCALAR_NORMAL = [1, -2, 2.5, -0.75, [1, 1], [0, -2], [1.5, -0.5], math.e, math.pi, 2, 10]
 SCALAR_TINY = [1e-300, -1e-300, 5e-324, [0.0, 1e-300]]
 
 
@@ -957,13 +966,13 @@ def judge_negpow(spec, rec):
             rec.cls('negpow:grader-flavour-%d' % flavour)
             if flavour == 3:
                 sub_cfg = {k: v for k, v in cfg.items() if k != 'answers'}
-                grader = ListGrader(answers=['7', '(%s)+0*sibling_1' % answer], subgraders=MatrixGrader(**sub_cfg), ordered=True)
+                grader = ListGrader(answers=['7', '(%s)+0*sibling_1' % answer], subgraders=forms.make(MatrixGrader, sub_cfg), ordered=True)
                 set_seed(stp['seed'])
                 status, out = call(grader, None, ['7', text])
                 if status == 'ok':
                     out = out['input_list'][1]
             else:
-                grader = MatrixGrader(**cfg)
+                grader = forms.make(MatrixGrader, cfg)
                 set_seed(stp['seed'])
                 status, out = call(grader, None, text)
             rec.calls()
